@@ -153,6 +153,38 @@ class PyError(RaiseSignal):
     def __str__(self):
         return f"{self.kind} at line {self.line}"
 
+def exc_kind(r):
+    """name of the exception class a RaiseSignal stands for ('?' when it cannot be told)"""
+    if isinstance(r, PyError):
+        return r.kind
+    n = getattr(r, 'node', None)
+    e = getattr(n, 'exc', None)
+    if isinstance(e, ast.Call):
+        e = e.func
+    if isinstance(e, ast.Name):
+        return e.id
+    if isinstance(e, ast.Attribute):
+        return e.attr
+    return '?'
+
+def handler_matches(h, kind):
+    import builtins
+    names = []
+    t = h.type
+    if t is None:
+        return True
+    for x in (t.elts if isinstance(t, ast.Tuple) else [t]):
+        names.append(x.id if isinstance(x, ast.Name) else (x.attr if isinstance(x, ast.Attribute) else '?'))
+    for nme in names:
+        if nme in ('Exception', 'BaseException') or nme == kind:
+            return True
+        a, b = getattr(builtins, kind, None), getattr(builtins, nme, None)
+        if isinstance(a, type) and isinstance(b, type) and issubclass(a, b):
+            return True
+    if kind == '?':
+        raise Unknown('an exception of unknown class meets a specific handler')
+    return False
+
 def norm_byte(vec):
     v = list(vec)[:8]
     v += [0] * (8 - len(v))
@@ -265,6 +297,25 @@ class Interp:
                 raise Unknown(f"del target at line {s.lineno}")
         elif isinstance(s, ast.Raise):
             raise RaiseSignal(s)
+        elif isinstance(s, ast.Try):
+            try:
+                try:
+                    self.block(s.body, env)
+                except RaiseSignal as r:
+                    kind = exc_kind(r)
+                    for h in s.handlers:
+                        if handler_matches(h, kind):
+                            if h.name:
+                                env[h.name] = AOpaque(f"exception {kind}")
+                            self.block(h.body, env)
+                            break
+                    else:
+                        raise
+                else:
+                    self.block(s.orelse, env)
+            finally:
+                if s.finalbody:
+                    self.block(s.finalbody, env)
         elif isinstance(s, ast.Assert):
             return
         else:
